@@ -158,7 +158,7 @@ def index_exprs(lengths, tier):
         ex.append(i)
     rv = [None, -n - 1, -n, -1, 0, 1, n, n + 1] if q else [None] + list(range(-n - 1, n + 2))
     cv = [None, -L - 1, -2, -1, 0, 1, 2, L + 1] if q else [None] + list(range(-L - 1, L + 2))
-    steps = [None, 1, 2, -1] if q else [None, 1, 2, 3, -1, -2]
+    steps = [None, 1, 2, -1, -2] if q else [None, 1, 2, 3, -1, -2, -3]
     rs = slice_grid(sorted(set(rv), key=lambda v: (v is not None, v)), steps)
     cs = slice_grid(sorted(set(cv), key=lambda v: (v is not None, v)), steps)
     ex += rs
